@@ -236,7 +236,13 @@ impl<const N: usize> AEADCipherCodec<N> {
             self.decoder = Some(decoder);
             if matches!(session.mode, Mode::Server) && session.address.is_none() {
                 session.address = Some(address::decode(&mut via)?);
+                if via.remaining() < 2 {
+                    bail!("header too short, missing padding length");
+                }
                 let padding_len = via.get_u16();
+                if via.remaining() < padding_len as usize {
+                    bail!("header too short, padding length {} exceeds {} remaining bytes", padding_len, via.remaining());
+                }
                 via.advance(padding_len as usize);
             }
             return Ok(Some(via));
